@@ -261,6 +261,33 @@ func find(body ast.Node, at string) (ast.Expr, *string) {
 			}
 			return true
 		})
+	case "lit": // lit:TYPE#k@j or lit:TYPE#k@Field — element of the k-th composite literal whose type prints as TYPE
+		ast.Inspect(body, func(n ast.Node) bool {
+			c, ok := n.(*ast.CompositeLit)
+			if !ok || c.Type == nil || src(c.Type) != arg {
+				return true
+			}
+			var x ast.Expr
+			if j, err := strconv.Atoi(sub); err == nil {
+				if j < len(c.Elts) {
+					x = c.Elts[j]
+					if kv, ok := x.(*ast.KeyValueExpr); ok {
+						x = kv.Value
+					}
+				}
+			} else {
+				for _, e := range c.Elts {
+					if kv, ok := e.(*ast.KeyValueExpr); ok && src(kv.Key) == sub {
+						x = kv.Value
+					}
+				}
+			}
+			if x == nil {
+				x = ast.NewIdent("__absent")
+			}
+			hit(x)
+			return true
+		})
 	case "ncalls": // ncalls:FN — number of calls whose function prints as FN
 		n := 0
 		ast.Inspect(body, func(nd ast.Node) bool {
